@@ -145,6 +145,23 @@ EXTRA5 = {
 }
 for k, v in EXTRA5.items():
     CHECKS[k]['text'] += v
+EXTRA6 = {
+ 'C02': " After every outgoing input the probe packet must not only be accepted but reach the transport (pacers: within 400 intervals); outgoing inputs include packets on the stream's RTX/FEC SSRC and on an unannounced SSRC.",
+ 'C03': " The long restricted alphabets and the two-stream configuration include a tick during which the RTCP writer refuses every write: what was offered is judged like a written request and may not come back at a later tick.",
+ 'C06': " One of the two loss-accounting configurations binds a 48 kHz stream.",
+ 'C08': " Interceptor-mode histories include clock readings with sub-microsecond parts around the rounding edge of the 1/1024 s unit and 1 ns after the report instant.",
+ 'C09': " TWCC reference times include 70000, 2^20 and 2^24-1 (microsecond values beyond 32 bits).",
+ 'C10': " Race reports are not de-duplicated by the detector; several schedules are recorded per race class and the first that fails again five times out of five is reported.",
+ 'C11': " Unbind of stream 1 names only the SSRC; every kind is searched again from warmed-up states (writer/reader bound, stream 1 bound, two traffic calls).",
+ 'C12': " The unbind measurement passes a StreamInfo that names only the SSRC.",
+ 'C13': " Every second packet of the CSRC shape is written with the stream's RTX SSRC.",
+ 'C15': " After the concurrent phase the other streams are unbound and two more packets written: the numbers continue the run.",
+ 'C16': " Configurations give the initial/min/max options in three orders with limits outside the package defaults.",
+ 'C17': " Every second 700-byte packet carries a longer value in the same header extension.",
+ 'C19': " The 32-bit counters of incoming sender reports wrap between the first and the second report of a history.",
+}
+for k, v in EXTRA6.items():
+    CHECKS[k]['text'] += v
 checks = []
 for pid in sorted(CHECKS):
     c = CHECKS[pid]
